@@ -39,6 +39,11 @@ def _work(job):
         cfg = ex.Config(**job["cfg"])
         mons = [resolve(n) for n in job["monitors"]]
         deadline = job.get("deadline")
+        cap = int(os.environ.get("VERIF_MAX_STATES") or 0)
+        if cap > 0:
+            # deterministic per-exploration state cap (breadth-first prefix); a capped exploration is
+            # reported as incomplete (state_cap_hit), never as exhaustive
+            cfg.max_states = min(cfg.max_states, cap)
         # definitions must be inspection-clean unless the job says otherwise
         if job.get("require_clean", True):
             insp = scn.inspection
@@ -264,6 +269,8 @@ def finish(prop, tier, seed, level, results, rule, t0, monitors, extra_cov=None,
         "scenarios_incomplete_count": len(incomplete),
         "time_budget_s": float(os.environ.get("VERIF_BUDGET_S") or 0) or None,
         "scenarios_cut_by_time_budget": int(tot.get("timed_out", 0)),
+        "state_cap_per_exploration": int(os.environ.get("VERIF_MAX_STATES") or 0) or None,
+        "scenarios_cut_by_state_cap": int(tot.get("state_cap_hit", 0)),
         "scenarios_skipped_by_inspection": len(skipped),
         "pruned_subtrees": int(tot["pruned_subtrees"]),
         "violating_transitions": int(tot["violating_transitions"]),
